@@ -36,6 +36,10 @@ fn tolp(dist: f64) -> i64 {
 fn tolinv(dist: f64) -> i64 {
     if dist >= 1.0 { -30 } else if dist >= 1e-4 { -18 } else { -6 }
 }
+/// NaN-free, non-zero contents for every output buffer: a skipped write or a skipped beta*y shows
+fn garbage(n: usize) -> Vec<f64> {
+    (0..n).map(|i| (if i % 2 == 0 { 1.0 } else { -1.0 }) * (3.25 + 0.5 * (i % 7) as f64)).collect()
+}
 fn maxabs(v: &[f64]) -> f64 { v.iter().fold(0.0f64, |a, x| a.max(x.abs())) }
 
 struct Ops13 {
@@ -49,32 +53,32 @@ fn drive<C: Cone<f64> + SymmetricCone<f64> + JordanAlgebra<f64>>(c: &mut C, z: &
     vh::mul_W(c, false, &mut wx, x, a, b);
     let mut winvx = y.to_vec();
     vh::mul_Winv(c, false, &mut winvx, x, a, b);
-    let mut hs = vec![0.0; hslen];
+    let mut hs = garbage(hslen);
     c.get_Hs(&mut hs);
-    let mut hsx = vec![0.0; n];
-    let mut work = vec![0.0; n];
+    let mut hsx = garbage(n);
+    let mut work = garbage(n);
     c.mul_Hs(&mut hsx, x, &mut work);
-    let mut aff = vec![0.0; n];
+    let mut aff = garbage(n);
     c.affine_ds(&mut aff, x);
-    let mut off = vec![0.0; n];
+    let mut off = garbage(n);
     c.Δs_from_Δz_offset(&mut off, x, &mut work, z);
-    let mut shift = vec![0.0; n];
+    let mut shift = garbage(n);
     let (mut sz, mut ss) = (x.to_vec(), y.to_vec());
     c.combined_ds_shift(&mut shift, &mut sz, &mut ss, sigmamu);
-    let mut circ = vec![0.0; n];
+    let mut circ = garbage(n);
     c.circ_op(&mut circ, x, y);
-    let mut icirc = vec![0.0; n];
+    let mut icirc = garbage(n);
     if with_inv_circ { c.inv_circ_op(&mut icirc, z, y); }
     // inverse / transpose consistency on the implementation's own outputs (alpha = 1, beta = 0)
-    let mut t1 = vec![0.0; n];
+    let mut t1 = garbage(n);
     vh::mul_Winv(c, false, &mut t1, x, 1.0, 0.0);
-    let mut wwinvx = vec![0.0; n];
+    let mut wwinvx = garbage(n);
     vh::mul_W(c, false, &mut wwinvx, &t1, 1.0, 0.0);
-    let mut w1x = vec![0.0; n];
+    let mut w1x = garbage(n);
     vh::mul_W(c, false, &mut w1x, x, 1.0, 0.0);
-    let mut winvwx = vec![0.0; n];
+    let mut winvwx = garbage(n);
     vh::mul_Winv(c, false, &mut winvwx, &w1x, 1.0, 0.0);
-    let mut wty = vec![0.0; n];
+    let mut wty = garbage(n);
     vh::mul_W(c, true, &mut wty, y, 1.0, 0.0);
     Ops13 { wx, winvx, hs, hsx, aff, off, shift, circ, icirc, wwinvx, winvwx, w1x, wty }
 }
@@ -171,12 +175,12 @@ fn psd_case(g: &mut Gen, S: &Mat, Z: &Mat, X: &Mat, Y: &Mat, tag: &str) {
         let mut c = vh::PSDTriangleCone::<f64>::new(n);
         let ok = c.update_scaling(&s, &z, 1.0, ScalingStrategy::PrimalDual);
         let (lam, rr, ri) = (c.verif_lambda().to_vec(), c.verif_R(), c.verif_Rinv());
-        let mut wz = vec![0.0; nv];
+        let mut wz = garbage(nv);
         vh::mul_W(&mut c, false, &mut wz, &z, 1.0, 0.0);
-        let mut wits = vec![0.0; nv];
+        let mut wits = garbage(nv);
         vh::mul_Winv(&mut c, true, &mut wits, &s, 1.0, 0.0);
-        let mut hsz = vec![0.0; nv];
-        let mut work = vec![0.0; nv];
+        let mut hsz = garbage(nv);
+        let mut work = garbage(nv);
         c.mul_Hs(&mut hsz, &z, &mut work);
         let o = drive(&mut c, &z, &x, &y, 1.0, 0.0, 0.5, nv * (nv + 1) / 2, false);
         (ok, lam, rr, ri, wz, wits, hsz, o, c.Hs_is_diagonal())
@@ -206,14 +210,14 @@ fn psd_case(g: &mut Gen, S: &Mat, Z: &Mat, X: &Mat, Y: &Mat, tag: &str) {
 /// what a cone exposes after some history: the operator outputs on x (alpha = 1, beta = 0) and the KKT block
 fn observe<C: Cone<f64> + SymmetricCone<f64>>(c: &mut C, x: &[f64], hslen: usize) -> (Vec<f64>, Vec<f64>, Vec<f64>, Vec<f64>) {
     let n = x.len();
-    let mut wx = vec![0.0; n];
+    let mut wx = garbage(n);
     vh::mul_W(c, false, &mut wx, x, 1.0, 0.0);
-    let mut winvx = vec![0.0; n];
+    let mut winvx = garbage(n);
     vh::mul_Winv(c, false, &mut winvx, x, 1.0, 0.0);
-    let mut hsx = vec![0.0; n];
-    let mut work = vec![0.0; n];
+    let mut hsx = garbage(n);
+    let mut work = garbage(n);
     c.mul_Hs(&mut hsx, x, &mut work);
-    let mut hs = vec![0.0; hslen];
+    let mut hs = garbage(hslen);
     c.get_Hs(&mut hs);
     (wx, winvx, hsx, hs)
 }
@@ -356,11 +360,135 @@ fn sequences(g: &mut Gen, reps: usize) {
     }
 }
 
+// ------------------------------------------------------------------ y <- alpha*W x + beta*y on structured probes
+const AB_GRID: [(f64, f64); 12] = [(0.0, 0.0), (0.0, 1.0), (0.0, -1.0), (0.0, 0.5), (0.0, 2.0),
+                                   (1.0, 0.0), (-1.0, 0.0), (2.0, 0.0), (1.0, 1.0), (2.0, 0.5), (0.5, -1.0), (-3.0, 2.0)];
+/// unit vectors, vectors with x0 = 0, a generic vector
+fn probes(rng: &mut Rng, n: usize) -> Vec<Vec<f64>> {
+    let mut v: Vec<Vec<f64>> = (0..n.min(6)).map(|i| { let mut e = vec![0.0; n]; e[i] = 1.0; e }).collect();
+    if n > 6 { let mut e = vec![0.0; n]; e[n - 1] = 1.0; v.push(e); }
+    let mut x: Vec<f64> = (0..n).map(|_| (rng.unit() - 0.5) * 4.0).collect();
+    x[0] = 0.0;
+    v.push(x);
+    v.push((0..n).map(|_| (rng.unit() - 0.5) * 4.0).collect());
+    v
+}
+/// runs mul_W / mul_Winv (N and T) over the (alpha, beta) grid with garbage in the output buffer and
+/// returns Coq conjuncts: the contract y_out = alpha*(W x) + beta*y_in in exact dyadics (W x taken
+/// from the call with alpha = 1, beta = 0), plus whatever `model` adds for the model comparison
+fn ab_conjuncts<C: SymmetricCone<f64>>(c: &mut C, x: &[f64], model: &dyn Fn(bool, f64, f64, &[f64], &[f64]) -> Option<String>) -> Option<Vec<String>> {
+    let n = x.len();
+    let yin = garbage(n);
+    let mut parts = vec![];
+    for inv in [false, true] {
+        for tr in [false, true] {
+            let mut refx = garbage(n);
+            if inv { vh::mul_Winv(c, tr, &mut refx, x, 1.0, 0.0) } else { vh::mul_W(c, tr, &mut refx, x, 1.0, 0.0) };
+            if !refx.iter().all(|v| v.is_finite()) { return None; }
+            for &(a, b) in AB_GRID.iter() {
+                let mut y = yin.clone();
+                if inv { vh::mul_Winv(c, tr, &mut y, x, a, b) } else { vh::mul_W(c, tr, &mut y, x, a, b) };
+                if !y.iter().all(|v| v.is_finite()) { return None; }
+                parts.push(format!("p_affine (-44) {} {} {} {} {}", cdy(a), cdy(b), cdylist(&refx), cdylist(&yin), cdylist(&y)));
+                if !tr { if let Some(m) = model(inv, a, b, &yin, &y) { parts.push(m); } }
+            }
+        }
+    }
+    Some(parts)
+}
+
+fn probe_cases(g: &mut Gen, thorough: bool) {
+    // --- NN
+    for n in [1usize, 3] {
+        for mode in 0..3 {
+            let (s, z): (Vec<f64>, Vec<f64>) = match mode {
+                0 => (vec![1.0; n], vec![1.0; n]),
+                1 => ((0..n).map(|i| 1.0 + i as f64).collect(), (0..n).map(|i| 4.0 / (1.0 + i as f64)).collect()),
+                _ => (0..n).map(|_| nn_pair(&mut g.rng)).unzip(),
+            };
+            for x in probes(&mut g.rng, n) {
+                let input = json!({"cone": "nn", "probe": true, "s": s, "z": z, "x": x});
+                let r = guarded(|| {
+                    let mut c = vh::NonnegativeCone::<f64>::new(n);
+                    c.update_scaling(&s, &z, 1.0, ScalingStrategy::PrimalDual);
+                    let w = c.verif_w().to_vec();
+                    let wl = cfllist(&w);
+                    let xl = cfllist(&x);
+                    ab_conjuncts(&mut c, &x, &|inv, a, b, yin, y| Some(format!("cmpv_el (0x1p-44)%float ({} F {} {} {} {} {}) {}",
+                        if inv { "nn_mul_Winv" } else { "nn_mul_W" }, wl, xl, cfl(a), cfl(b), cfllist(yin), cfllist(y))))
+                });
+                match r {
+                    Some(Some(parts)) => { g.sink.case("nn_probe", input, format!("(maxl [{}])", parts.join("; ")), &["probe"]); g.count("probe/nn"); }
+                    _ => g.sink.case("nn_probe", input, "1%N".into(), &["probe", "panic-or-nonfinite"]),
+                }
+            }
+        }
+    }
+    // --- SOC, dense and sparse
+    let dims: &[usize] = if thorough { &[2, 3, 4, 5, 6, 9] } else { &[2, 4, 5, 8] };
+    for &n in dims {
+        for mode in 0..5 {
+            let e0 = |v: f64| -> Vec<f64> { let mut t = vec![0.0; n]; t[0] = v; t };
+            let (s, z): (Vec<f64>, Vec<f64>) = match mode {
+                0 => (e0(1.0), e0(1.0)),                                   // the identity point s = z = e
+                1 => (e0(2.0), e0(8.0)),                                   // zero tails
+                2 => { let mut s = e0(3.0); s[1] = 1.0; let mut z = e0(2.0); z[n - 1] = -1.0; (s, z) } // axis-aligned tails
+                3 => { let mut s = e0(3.0); s[1] = 2.0; (s.clone(), s) }   // s = z, one tail entry
+                _ => (soc_interior(&mut g.rng, n, 1.0, 1.0), soc_interior(&mut g.rng, n, 1.0, 2.0)),
+            };
+            for x in probes(&mut g.rng, n) {
+                let input = json!({"cone": "soc", "probe": true, "s": s, "z": z, "x": x});
+                let r = guarded(|| {
+                    let mut c = vh::SecondOrderCone::<f64>::new(n);
+                    if !c.update_scaling(&s, &z, 1.0, ScalingStrategy::PrimalDual) { return None; }
+                    let (wl, el, xl) = (cfllist(&c.w), cfl(c.η), cfllist(&x));
+                    let mut parts = ab_conjuncts(&mut c, &x, &|inv, a, b, yin, y| Some(format!("cmpv (0x1p-40)%float ({} F {} {} {} {} {} {}) {}",
+                        if inv { "soc_mul_Winv" } else { "soc_mul_W" }, wl, el, xl, cfl(a), cfl(b), cfllist(yin), cfllist(y))))?;
+                    // the same probes after an identity reset
+                    c.set_identity_scaling();
+                    let (wl, el) = (cfllist(&c.w), cfl(c.η));
+                    parts.extend(ab_conjuncts(&mut c, &x, &|inv, a, b, yin, y| Some(format!("cmpv (0x1p-40)%float ({} F {} {} {} {} {} {}) {}",
+                        if inv { "soc_mul_Winv" } else { "soc_mul_W" }, wl, el, xl, cfl(a), cfl(b), cfllist(yin), cfllist(y))))?);
+                    Some(parts)
+                });
+                match r {
+                    Some(Some(parts)) => { g.sink.case("soc_probe", input, format!("(maxl [{}])", parts.join("; ")), &["probe"]); g.count(&format!("probe/soc/{}", if n > 4 { "sparse" } else { "dense" })); }
+                    _ => g.sink.case("soc_probe", input, "1%N".into(), &["probe", "panic-or-nonfinite-or-refused"]),
+                }
+            }
+        }
+    }
+    // --- PSD (contract only)
+    if blas_shim::AVAILABLE {
+        for n in [1usize, 2, 3] {
+            for mode in 0..2 {
+                let (S, Z) = if mode == 0 {
+                    let mut i = vec![vec![0.0; n]; n]; for k in 0..n { i[k][k] = 1.0; } (i.clone(), i)
+                } else { (psd_matrix(&mut g.rng, n, 0.3, 1.0), psd_matrix(&mut g.rng, n, 0.3, 2.0)) };
+                let (s, z) = (svec(&S), svec(&Z));
+                for x in probes(&mut g.rng, s.len()) {
+                    let input = json!({"cone": "psd", "probe": true, "S": S, "Z": Z, "x": x});
+                    let r = guarded(|| {
+                        let mut c = vh::PSDTriangleCone::<f64>::new(n);
+                        if !c.update_scaling(&s, &z, 1.0, ScalingStrategy::PrimalDual) { return None; }
+                        ab_conjuncts(&mut c, &x, &|_, _, _, _, _| None)
+                    });
+                    match r {
+                        Some(Some(parts)) => { g.sink.case("psd_probe", input, format!("(maxl [{}])", parts.join("; ")), &["probe"]); g.count("probe/psd"); }
+                        _ => g.sink.case("psd_probe", input, "1%N".into(), &["probe", "panic-or-nonfinite-or-refused"]),
+                    }
+                }
+            }
+        }
+    }
+}
+
 const AB: [(f64, f64); 4] = [(1.0, 0.0), (-1.0, 0.0), (2.0, 0.5), (0.5, -1.0)];
 
 fn generate(g: &mut Gen, thorough: bool) {
     let reps = if thorough { 8 } else { 2 };
     sequences(g, reps);
+    probe_cases(g, thorough);
     for _ in 0..reps {
         for n in 1..=12usize {
             for mode in 0..3 {
